@@ -43,6 +43,11 @@ type VStrs struct {
 }
 
 // VRefs is a slice of pointers to heap objects.
+// VFuncParam is a function value received as a parameter: only whether it is nil is known.
+type VFuncParam struct {
+	Nil Term
+}
+
 type VRefs struct {
 	Arr, N Term
 	Elem   string
@@ -318,6 +323,10 @@ func (fx *FuncCtx) iteVal(c Term, a, b Val) Val {
 		// same pointer expected
 	case VOpaque:
 		return a
+	case VFuncParam:
+		if y, ok := b.(VFuncParam); ok {
+			return VFuncParam{Nil: sIte(c, x.Nil, y.Nil)}
+		}
 	case VRefs:
 		y := b.(VRefs)
 		return VRefs{Arr: sIte(c, x.Arr, y.Arr), N: fx.name(sortInt, "mrn", sIte(c, x.N, y.N)), Elem: x.Elem}
